@@ -194,3 +194,38 @@ fn o3_4_forget_frames_any_threshold() {
     assert!(fq.frame_log.base_id() == base.wrapping_add(3 - kept));
     std::mem::forget(fq);
 }
+
+//@h props=C15,C14 tier=quick timeout=1500 role=ack-overlap unwindset=FrameQueue17acknowledge_group.0:34
+//@fn FrameQueue::{push, acknowledge_group, get_feedback}, FeedbackGen::{put_ack_data, get_feedback}
+//@bound log of 2 frames at base 2^32-1 sent at any t0 <= t1; the SECOND frame is acknowledged first and its feedback collected; then a genuine group covering BOTH frames arrives (one fresh bit, one repeated bit) and feedback is collected at any later time
+#[kani::proof]
+#[kani::unwind(6)]
+fn o15_2_overlapping_ack_counts_only_new_frames() {
+    let mut fq = FrameQueue::new(4, 4, 0xFFFF_FFFF);
+    let (n0, n1): (bool, bool) = (kani::any(), kani::any());
+    let (t0, t1): (u64, u64) = (kani::any(), kani::any());
+    kani::assume(t0 <= t1 && t1 < 1 << 40);
+    let (s0, s1): (u16, u16) = (kani::any(), kani::any());
+    fq.push(s0 as usize, t0, Box::new([]), n0);
+    fq.push(s1 as usize, t1, Box::new([]), n1);
+    let rtt = if kani::any() { Some(kani::any::<u64>() & 0xFFFF) } else { None };
+    fq.acknowledge_group(frame::AckGroup { base_id: 0, bitfield: 0b1, nonce: n1 }, rtt);
+    let now1: u64 = kani::any();
+    kani::assume(now1 >= t1 && now1 < 1 << 40);
+    let fb1 = fq.get_feedback(now1);
+    assert!(fb1.is_some() && fb1.as_ref().unwrap().rtt_ms == now1 - t1, "[C14,C15] RTT sample measured from the acknowledged frame");
+    // overlapping group: frame 0 fresh, frame 1 repeated
+    fq.acknowledge_group(frame::AckGroup { base_id: 0xFFFF_FFFF, bitfield: 0b11, nonce: n0 ^ n1 }, rtt);
+    let now2: u64 = kani::any();
+    kani::assume(now2 >= now1 && now2 < 1 << 40);
+    let fb2 = fq.get_feedback(now2);
+    assert!(fb2.is_some(), "[C15] the fresh part of the group is acknowledged");
+    let fb2 = fb2.unwrap();
+    assert!(fb2.rtt_ms == now2 - t0, "[C15] the repeated bit does not contribute to the RTT sample (only newly acknowledged frames do)");
+    if now2 > now1 {
+        let expect = (s0 as f64 / ((now2 - now1) as f64 / 1000.0)).clamp(0.0, u32::MAX as f64) as u32;
+        assert!(fb2.receive_rate == expect, "[C15] the repeated bit does not contribute to the receive-rate sample");
+    }
+    kani::cover!(t0 < t1, "repeated frame was sent later than the fresh one");
+    std::mem::forget(fq);
+}
